@@ -4,12 +4,13 @@ CONSTANTS
   Hashes = {1, 2, 3}
   MaxAttrs = 2
   CandAttrs = 1
-  MaxBlocks = 4
+  MaxBlocks = 5
   MaxTxPerBlock = 2
   MaxTxTotal = 3
   Window = 2
   GCLag = 1
   CheckStay = TRUE
   Deviation = "none"
+  GCMode = "strict"
 INVARIANTS InvAnswers InvStay InvProp
 CHECK_DEADLOCK FALSE
